@@ -229,6 +229,12 @@ class HTTPChannel(wasyncore.dispatcher):
                 ):
                     self.send_continue()
 
+                    if self.will_close:
+                        # the interim response could not be sent and the
+                        # connection is condemned (see _flush_exception):
+                        # nothing behind this point may be dispatched
+                        return False
+
                 if self.request.completed:
                     # The request (with the body) is ready to use.
                     self.sent_continue = False
